@@ -6,8 +6,8 @@ import random
 class Prop(PoolProp):
     pid = "C02"
     focus = "termination"
-    real_scenarios_quick = ("d19_late_retirement", "late_exhaustion", "other_start_methods", "join_timeout_zero")
-    real_scenarios = ("join_timeout_zero", "other_start_methods", "late_exhaustion", "late_items_flow_control", "factory_quota_two_calls", "factory_quota_bounded",
+    real_scenarios_quick = ("d19_late_retirement", "late_exhaustion", "other_start_methods", "join_timeout_zero", "nested_children")
+    real_scenarios = ("nested_children", "join_timeout_zero", "other_start_methods", "late_exhaustion", "late_items_flow_control", "factory_quota_two_calls", "factory_quota_bounded",
                       "d19_late_retirement")
     rule = ("as C01, with schedules biased to starve the feeding thread (late exhaustion of the input), the consumer or the "
             "workers, and bounded result queues that trigger flow control; oracle: the run ends with every thread finished (no "
